@@ -1190,6 +1190,149 @@ func (c *c11) immutJob(job string, first int) {
 
 // ---------------------------------------------------------------------------
 
+// ---------------------------------------------------------------------------
+// encctor: the constructors that take a PERCENT-ENCODED value, NewMember and NewKeyValueProperty,
+// over every string of <= maxTok tokens. Reference: a value is well formed when every character is
+// a W3C baggage-octet, every '%' starts a %XX escape and the decoded bytes are valid UTF-8. A well
+// formed value is accepted; whatever is accepted holds exactly the decoded value (valid UTF-8),
+// equals what the Raw constructor makes of the decoded value, and survives New -> String -> Parse
+// and Inject -> Extract.
+
+var encTokens = []string{"a", "%", "2", "5", "C", "%2C", "%25", "%3B", "%20", "%C3%A9", "%c3%a9", "%FF", "%zz", "é", " ", ",", ";", "=", "+", "\"", "\\", "%C3"}
+
+func encRefDecode(s string) (dec string, wellFormed bool) {
+	var b []byte
+	ok := true
+	for i := 0; i < len(s); i++ {
+		ch := s[i]
+		octet := ch == 0x21 || (ch >= 0x23 && ch <= 0x2b) || (ch >= 0x2d && ch <= 0x3a) || (ch >= 0x3c && ch <= 0x5b) || (ch >= 0x5d && ch <= 0x7e)
+		if !octet {
+			ok = false
+		}
+		if ch == '%' {
+			hex := func(c byte) int {
+				switch {
+				case c >= '0' && c <= '9':
+					return int(c - '0')
+				case c >= 'a' && c <= 'f':
+					return int(c-'a') + 10
+				case c >= 'A' && c <= 'F':
+					return int(c-'A') + 10
+				}
+				return -1
+			}
+			if i+2 >= len(s) || hex(s[i+1]) < 0 || hex(s[i+2]) < 0 {
+				return "", false
+			}
+			b = append(b, byte(hex(s[i+1])<<4|hex(s[i+2])))
+			i += 2
+			continue
+		}
+		b = append(b, ch)
+	}
+	return string(b), ok && utf8.Valid(b)
+}
+
+func (c *c11) encCtorJob(job string, first int) {
+	r := c.r
+	r.Section(job)
+	maxTok := enum.Pick(r, 4, 5)
+	r.Bound("encctor_tokens", encTokens)
+	r.Bound("encctor_max_tokens", maxTok)
+	prop := propagation.Baggage{}
+	one := func(enc string) {
+		r.Eval()
+		stage := "NewMember"
+		desc := func() any { return map[string]any{"percent_encoded_value": fmt.Sprintf("%q", enc)} }
+		defer c.guard(&stage, desc)()
+		want, wf := encRefDecode(enc)
+		m, err := baggage.NewMember("k", enc)
+		stage = "NewKeyValueProperty"
+		pr, perr := baggage.NewKeyValueProperty("p", enc)
+		if (err == nil) != (perr == nil) {
+			r.FailHere("encctor|member and property constructors disagree", desc(), "NewMember: %v, NewKeyValueProperty: %v", err, perr)
+		}
+		if err != nil {
+			if wf {
+				r.FailHere("ctor-rejects|NewMember: well-formed percent-encoded value", desc(), "NewMember(\"k\", %q) = %v; the value is well formed and decodes to %q", enc, err, want)
+			}
+			r.Outcome("reject")
+			return
+		}
+		if !utf8.ValidString(m.Value()) {
+			r.FailHere("encctor|accepted value is not valid UTF-8", desc(), "NewMember(\"k\", %q) holds %q", enc, m.Value())
+			return
+		}
+		if want != m.Value() {
+			r.FailHere("encctor|value is not the decoded argument", desc(), "NewMember(\"k\", %q) holds %q, decoding gives %q", enc, m.Value(), want)
+		}
+		if perr == nil {
+			if v, ok := pr.Value(); !ok || v != m.Value() {
+				r.FailHere("encctor|property value is not the decoded argument", desc(), "NewKeyValueProperty(\"p\", %q) holds (%q, %v), the member holds %q", enc, v, ok, m.Value())
+			}
+		}
+		stage = "NewMemberRaw"
+		raw, rerr := baggage.NewMemberRaw("k", m.Value())
+		if rerr != nil || raw.String() != m.String() {
+			r.FailHere("encctor|differs from the Raw constructor on the decoded value", desc(), "NewMember(%q).String() = %q, NewMemberRaw(%q): %q err=%v", enc, m.String(), m.Value(), raw.String(), rerr)
+		}
+		stage = "New"
+		mp, err := baggage.NewMember("k", enc, pr)
+		if err != nil {
+			r.FailHere("encctor|member with an accepted property rejected", desc(), "NewMember with the property: %v", err)
+			return
+		}
+		bag, err := baggage.New(mp)
+		if err != nil {
+			r.FailHere("ctor-rejects|New: one small member", desc(), "New: %v", err)
+			return
+		}
+		stage = "Parse"
+		back, err := baggage.Parse(bag.String())
+		check := func(what string, b baggage.Baggage) {
+			g := b.Member("k")
+			ps := g.Properties()
+			pv, pok := "", false
+			if len(ps) == 1 {
+				pv, pok = ps[0].Value()
+			}
+			if b.Len() != 1 || g.Value() != m.Value() || len(ps) != 1 || !pok || pv != m.Value() {
+				r.FailHere("roundtrip|"+what+"|member built from a percent-encoded value", desc(), "header %q: got %d members, value %q, properties %v; sent value and property value %q", bag.String(), b.Len(), g.Value(), ps, m.Value())
+			}
+		}
+		if err != nil {
+			r.FailHere("roundtrip|Parse rejects what String wrote", desc(), "Parse(%q): %v", bag.String(), err)
+			return
+		}
+		check("String -> Parse", back)
+		stage = "Inject/Extract"
+		car := propagation.HeaderCarrier(http.Header{})
+		prop.Inject(baggage.ContextWithBaggage(context.Background(), bag), car)
+		check("Inject -> Extract", baggage.FromContext(prop.Extract(context.Background(), car)))
+		r.Outcome("ok|" + m.Value())
+	}
+	var rec func(prefix string, n int)
+	rec = func(prefix string, n int) {
+		if r.Expired() {
+			return
+		}
+		if r.Want() {
+			one(prefix)
+		}
+		if n == maxTok {
+			return
+		}
+		for _, t := range encTokens {
+			rec(prefix+t, n+1)
+		}
+	}
+	if first < 0 {
+		one("")
+		return
+	}
+	rec(encTokens[first], 1)
+}
+
 func TestVerifC11(t *testing.T) {
 	var jobs []string
 	for i := range valAlpha {
@@ -1205,7 +1348,10 @@ func TestVerifC11(t *testing.T) {
 	for i := range pctContexts {
 		jobs = append(jobs, fmt.Sprintf("pct/c%d", i))
 	}
-	jobs = append(jobs, "limits/parse", "limits/new")
+	jobs = append(jobs, "limits/parse", "limits/new", "encctor/empty")
+	for i := range encTokens {
+		jobs = append(jobs, fmt.Sprintf("encctor/t%02d", i))
+	}
 	for i := range editOps() {
 		jobs = append(jobs, fmt.Sprintf("immut/op%02d", i))
 	}
@@ -1233,6 +1379,11 @@ func TestVerifC11(t *testing.T) {
 		case strings.HasPrefix(job, "pct/"):
 			fmt.Sscanf(job, "pct/c%d", &n)
 			c.pctJob(job, n)
+		case job == "encctor/empty":
+			c.encCtorJob(job, -1)
+		case strings.HasPrefix(job, "encctor/t"):
+			fmt.Sscanf(job, "encctor/t%d", &n)
+			c.encCtorJob(job, n)
 		case job == "limits/parse":
 			c.limitsParse(job)
 		case job == "limits/new":
